@@ -92,6 +92,14 @@ def handle : Handler
            spec := Spec.Head.fields (w.length + 1) w == some (kept kv, []),
            specNote := "trailer block reads back as the fields set",
            tag := "trailerhdr:" ++ sizeClass kv.length ++ flag kv }
+  -- the trailer section as the real message writer puts it on the wire behind the last chunk (`ext.WriteTrailer`)
+  | "trailerwire" :: side :: _script, impl@(wire :: n :: t) => do
+    let (kv, _) ← takePairs n.toNat! t
+    let w ← hx wire
+    pure { out := encHex (trailerBytes kv) :: impl.drop 1,
+           spec := Spec.Head.fields (w.length + 1) w == some (kept kv, []),
+           specNote := "trailer section on the wire reads back as the fields set",
+           tag := "trailerwire:" ++ side ++ ":" ++ sizeClass kv.length ++ flag kv }
   | _, _ => none
 
 end Hertz.Driver.C05
